@@ -45,6 +45,11 @@ type Meta struct {
 	// HangIsViolation: a run that does not come back within the watchdog is a
 	// violation of this property (totality); otherwise it is harness trouble.
 	HangIsViolation bool
+	// NonVacuous names probes that must be non-zero for the batch to have
+	// exercised the interesting side of its oracle (an intact entry that opens,
+	// a warm hit that is served, ...). If one is zero the property still held
+	// on everything explored, but the run says VACUOUS loudly and in evidence.
+	NonVacuous []string
 }
 
 // PropEngine is what an engine implements per property.
